@@ -960,6 +960,8 @@ class Engine:
             tys = callee.get('args') or []
             pointee = tys[1] if name == 'cast' and len(tys) > 1 else (tys[0] if tys else '_')
             return ('cast', 'PtrToPtr', args[0], '*%s %s' % (mut, pointee))
+        if p in ('core::ptr::from_mut', 'core::ptr::from_ref') and len(args) == 1:
+            return args[0]          # `ptr::from_mut(r)` is `r as *mut _`: the same address (references and raw pointers share one term)
         if name == 'into_iter' and rpath == '<I as core::iter::traits::collect::IntoIterator>::into_iter':
             return args[0]          # the blanket impl for iterators is the identity
         if p == 'core::option::Option::<T>::take' and args[0][0] == 'ref':
